@@ -4,6 +4,7 @@ import (
 	"encoding/json"
 	"fmt"
 	"io"
+	"os"
 	"reflect"
 	"strconv"
 	"strings"
@@ -297,6 +298,61 @@ func (c *Ctx) RunScript(ops []SOp, p redact.SafePrinter, st fmt.State, verb rune
 	}
 }
 
+// RunWriterOps issues the calls on a SafeWriter; wr is its plain io.Writer side.
+func (c *Ctx) RunWriterOps(ops []SOp, w redact.SafeWriter, wr io.Writer) {
+	for _, op := range ops {
+		switch op.O {
+		case "SafeString":
+			w.SafeString(redact.SafeString(c.Subst(op.B)))
+		case "UnsafeString":
+			w.UnsafeString(string(c.Subst(op.B)))
+		case "SafeBytes":
+			w.SafeBytes(interfaces.SafeBytes(c.Subst(op.B)))
+		case "UnsafeBytes":
+			w.UnsafeBytes(c.Subst(op.B))
+		case "SafeRune":
+			w.SafeRune(redact.SafeRune(op.N))
+		case "UnsafeRune":
+			w.UnsafeRune(rune(op.N))
+		case "SafeByte":
+			w.SafeByte(interfaces.SafeByte(op.N))
+		case "UnsafeByte":
+			w.UnsafeByte(byte(op.N))
+		case "SafeInt":
+			w.SafeInt(redact.SafeInt(op.N))
+		case "SafeUint":
+			w.SafeUint(redact.SafeUint(uint64(int64(op.N))))
+		case "SafeFloat":
+			w.SafeFloat(redact.SafeFloat(c.Value(op.Ts[0]).(float64)))
+		case "Write":
+			wr.Write(c.Subst(op.B))
+		case "WriteString":
+			io.WriteString(wr, string(c.Subst(op.B)))
+		case "WriteByte":
+			// the builder's own WriteByte; a fmt.State only has Write
+			if bw, ok := wr.(io.ByteWriter); ok {
+				bw.WriteByte(byte(op.N))
+			} else {
+				wr.Write([]byte{byte(op.N)})
+			}
+		case "WriteRune":
+			if rw, ok := wr.(interface{ WriteRune(rune) error }); ok {
+				rw.WriteRune(rune(op.N))
+			} else {
+				wr.Write([]byte(string(rune(op.N))))
+			}
+		case "Print":
+			w.Print(c.Values(op.Ts)...)
+		case "Printf":
+			w.Printf(string(c.Subst(op.F)), c.Values(op.Ts)...)
+		case "JoinTo":
+			redact.JoinTo(w, redact.RedactableString(c.Subst(op.B)), c.Value(op.Ts[0]))
+		default:
+			panic("writer op " + op.O)
+		}
+	}
+}
+
 // ---- uint8-kinded named types (capability U8) ----------------------------------
 // Their value is a slot number; slots are reserved per context so that the methods find their spec.
 
@@ -379,7 +435,7 @@ func (c *Ctx) Index(ts []*Term) {
 		if t == nil {
 			continue
 		}
-		c.byID[t.ID] = t
+		c.register(t)
 		c.Index(t.Xs)
 		c.Index(t.Pan)
 		for _, op := range t.Scr {
@@ -391,13 +447,24 @@ func (c *Ctx) Index(ts []*Term) {
 	}
 }
 
+// register notes t under its id.  Two different terms of one case that share an id are a mistake in the enumeration
+// of the specification (the memoised value of the first would silently stand for the second): that must never turn
+// into a verdict about redact, so the harness stops (exit 3 = machinery broken).
+func (c *Ctx) register(t *Term) {
+	if prev := c.byID[t.ID]; prev != nil && prev != t && t.K != "nil" && !reflect.DeepEqual(prev, t) {
+		fmt.Fprintf(os.Stderr, "HARNESS-CONFIG-ERROR: term id %d stands for two different terms (%s / %s) in the same case\n", t.ID, prev.K, t.K)
+		os.Exit(3)
+	}
+	c.byID[t.ID] = t
+}
+
 // Value returns the Go value of term t (memoised per id, so that the same
 // object is used wherever the id occurs, e.g. for pointer identity).
 func (c *Ctx) Value(t *Term) interface{} {
+	c.register(t)
 	if v, ok := c.vals[t.ID]; ok && t.K != "nil" {
 		return v
 	}
-	c.byID[t.ID] = t
 	v := c.build(t)
 	c.vals[t.ID] = v
 	return v
@@ -483,6 +550,11 @@ func (c *Ctx) build(t *Term) interface{} {
 		}
 		specs.Store(h, &objSpec{c, t})
 		return objMakers[reg][mask](h, false)
+	case "builder":
+		// a builder.StringBuilder holding what the calls of t.Scr produced, passed by value
+		var sb redact.StringBuilder
+		c.RunWriterOps(t.Scr, &sb, &sb)
+		return sb
 	case "slice":
 		return c.Values(t.Xs)
 	case "map":
@@ -555,6 +627,21 @@ func (c *Ctx) build(t *Term) interface{} {
 		return complex(float64(t.ID)+0.5, float64(t.ID)+1.5)
 	case "rvalue":
 		return reflect.ValueOf(c.Value(t.Xs[0]))
+	case "rvaluero":
+		// a reflect.Value reached through an unexported field of the operand's own static type
+		switch x := c.Value(t.Xs[0]).(type) {
+		case redact.RedactableString:
+			return reflect.ValueOf(struct{ f redact.RedactableString }{x}).Field(0)
+		case redact.RedactableBytes:
+			return reflect.ValueOf(struct{ f redact.RedactableBytes }{x}).Field(0)
+		case redact.SafeString:
+			return reflect.ValueOf(struct{ f redact.SafeString }{x}).Field(0)
+		case string:
+			return reflect.ValueOf(struct{ f string }{x}).Field(0)
+		case int:
+			return reflect.ValueOf(struct{ f int }{x}).Field(0)
+		}
+		panic("no holder type for a reflect.Value of this kind")
 	case "invalidrv":
 		return reflect.Value{}
 	}
